@@ -358,8 +358,9 @@ def case_synonyms(**p):
       (cb,) = tkb.sym_run(W, var_values=extra_b)
       pairs_ += list(zip(np.asarray(ca, dtype=object).reshape(-1), np.asarray(cb, dtype=object).reshape(-1)))
       wit['w'] = W
+    flat = lambda outs: np.asarray(outs[0]).reshape(-1)
     case.identity('synonymous-spellings-configure-identical-behaviour[%s]' % label, pairs_, witness=wit, timeout=60, sig=dict(query='synonym'),
-                  replay=None)
+                  inline_replay=lambda m, ta=ta, tb=tb, x=x, vva=vva, vvb=vvb: core.compare_tf(m, [(ta, [x], vva, flat), (tb, [x], vvb, flat)]))
   return case
 
 
